@@ -12,6 +12,7 @@ import (
 	"time"
 
 	"github.com/VKCOM/statshouse/internal/data_model"
+	"github.com/VKCOM/statshouse/internal/format"
 )
 
 // VerifC23Row is the part of a tsSelectRow the storage stub fills: (slot time, cache key id, step,
@@ -245,3 +246,14 @@ func VerifC23Inflight(ctx context.Context, cancel context.CancelFunc) (update fu
 }
 
 const VerifC23InvalidateLinger = invalidateLinger
+
+// VerifC23CacheKey returns the real cache key of a query whose only filter is "string top in `stop`".
+func VerifC23CacheKey(stop []string) string {
+	q := &queryBuilder{}
+	for _, v := range stop {
+		f := &q.filterIn.Tags[format.StringTopTagIndexV3]
+		f.Values = append(f.Values, data_model.NewTagValueS(v))
+	}
+	return q.getOrBuildCacheKey()
+}
+
